@@ -243,4 +243,16 @@ theorem notify_mem (s : St) (ch : Nat) (except : Option Nat) (e : Event) (he : e
       exact ⟨rfl, rfl, by simpa using hex, k, hk, rfl, by simpa using hs⟩
     · simp at hke
 
+/-- an update that passes the equality and permission tests: the state changes at most in the characteristic's
+    value, and the events are the fan-out over the new state -/
+theorem update_effective (s : St) (ch v : Nat) (o : Option Nat) (cp : Bool)
+    (h1 : ((s.chars ch).value == some v && !(s.chars ch).updateOnSame) = false)
+    (h2 : (cp && !(s.chars ch).writable) = false) :
+    ∃ s', s'.conns = s.conns ∧ update s ch v o cp = (s', notify s' ch o) := by
+  simp only [update, h1, h2]
+  by_cases hr : (s.chars ch).readable = true
+  · refine ⟨setChar s ch { s.chars ch with value := some v }, by simp [setChar], ?_⟩
+    simp [hr]
+  · exact ⟨s, rfl, by simp [hr]⟩
+
 end Hc.Notify
